@@ -222,7 +222,23 @@ func (g *sgen) stream(id int, faults bool) {
 	nops := 6 + g.r.Intn(30)
 	for i := 0; i < nops; i++ {
 		cid := g.pickLive()
-		switch g.r.Weighted([]int{30, 30, 8, 6, 3, 3, 8, 4, 6, 3, 4, 2, 2}) {
+		switch g.r.Weighted([]int{30, 30, 8, 6, 3, 3, 8, 4, 6, 3, 4, 2, 2, 3}) {
+		case 13:
+			// a connection with a real backlog (small kernel send buffer, a peer that does not read, more output than the
+			// socket takes) meets an I/O failure: it is closed while output is waiting and the socket is full - the
+			// failure has to stay on this connection and the loop has to go on
+			if faults && cid != "" && proto == 0 {
+				g.emit(fmt.Sprintf("sndbuf %s 1", cid))
+				g.emit(fmt.Sprintf("prog traffic write:%s;write:%s;write:%s;ret:none", g.payload(3000), g.payload(3000), g.payload(2000+g.r.Intn(1000))))
+				g.emit(fmt.Sprintf("send %s %s", cid, g.payload(3)))
+				g.emit("poll")
+				call := []string{"read", "read", "epoll_ctl_ModRead", "epoll_ctl_ModReadWrite"}[g.r.Intn(4)]
+				g.emit(fmt.Sprintf("inject %s %s errno %s", call, cid, []string{"ECONNRESET", "ETIMEDOUT", "EIO", "ENOMEM"}[g.r.Intn(4)]))
+				g.emit(fmt.Sprintf("send %s %s", cid, g.payload(3)))
+				g.emit("poll")
+				g.emit("poll")
+				g.emit("prog traffic " + g.trafficProg())
+			}
 		case 12:
 			// accept(2) fails: the errors the code declares retryable must have no visible effect (the connection is
 			// accepted by the next round), any other ends the loop
